@@ -111,7 +111,7 @@ ItTime(f, now) == [t |-> f, s |-> "", a |-> now.inst, b |-> now.off]
 ItFn(impl)     == [t |-> "fn", s |-> impl.src, a |-> impl.c, b |-> impl.k]
 ItRes(r)       == [t |-> "res", s |-> "", a |-> r, b |-> 0]
 ItEmpty        == [t |-> "empty", s |-> "", a |-> 0, b |-> 0]     \* no item (an empty collection)
-ItOpaque(p, r, x) == [t |-> "opaque", s |-> "", a |-> p, b |-> r * 1000 + x]
+ItOpaque(p, r, x) == [t |-> "opaque", s |-> "", a |-> p, b |-> r * 100000 + x]    \* x < 100000
 ItErr(cls)     == [t |-> "err", s |-> cls, a |-> 0, b |-> 0]
 IsTimeItem(x)  == x.t \in {"now", "today", "tod"}
 
